@@ -225,7 +225,9 @@ def custom(job):
                     calls.append(x)
                     if kind == "ret":
                         return val
-                    raise (Listed("l") if kind == "listed" else Unlisted("u"))
+                    if kind == "listed":
+                        raise Listed("l") from ValueError("what went wrong inside")      # the cause reported is the exception RAISED, not its own cause
+                    raise Unlisted("u")
                 chk.checks("custom", raises=Listed)(f)
                 want_ok = kind == "ret" and bool(val)
                 prob = None
